@@ -71,11 +71,11 @@ const c02GenesisTime = 1584368940
 var c02APIs = []string{"grpc", "json-base58", "json-base64", "json-base64+zstd", "json-json"}
 
 type c02Case struct {
-	name   string
-	seed   uint64
-	twin   bool // a further epoch (number = last + 1) built by c02GenTwin from the multi-frame transactions of the FIRST epoch: the two share objects
-	specs  []genOpts
-	skip1  bool // epoch 0: first block at slot 0, second block at slot >= 2 (boundary of the same-epoch parent test)
+	name  string
+	seed  uint64
+	twin  bool // a further epoch (number = last + 1) built by c02GenTwin from the multi-frame transactions of the FIRST epoch: the two share objects
+	specs []genOpts
+	skip1 bool // epoch 0: first block at slot 0, second block at slot >= 2 (boundary of the same-epoch parent test)
 	// collide: two epochs, the FIRST spec being the later one: it is generated and indexed first, then the first two
 	// transactions of the second (earlier) epoch are re-signed until the later epoch's sig-to-cid index answers their
 	// signatures (a 24-bit hash collision across epochs): only the sig-exists filter keeps the epoch search from
@@ -90,7 +90,7 @@ func (c02MemFile) Close() error { return nil }
 func c02SpecString(specs []genOpts) string {
 	var p []string
 	for _, o := range specs {
-		p = append(p, fmt.Sprintf("%d:%d:%d:%d:%d:%d:%d:%d", o.Epoch, o.NBlocks, o.MaxTx, o.SkipPct, o.FramePct, o.BigPct, o.LoadedPct, o.FirstSlotAt))
+		p = append(p, fmt.Sprintf("%d:%d:%d:%d:%d:%d:%d:%d:%d", o.Epoch, o.NBlocks, o.MaxTx, o.SkipPct, o.FramePct, o.BigPct, o.LoadedPct, o.FirstSlotAt, o.TimeBase))
 	}
 	return strings.Join(p, ";")
 }
@@ -99,12 +99,18 @@ func c02ParseSpecs(s string) []genOpts {
 	var out []genOpts
 	for _, part := range strings.Split(s, ";") {
 		f := strings.Split(part, ":")
-		if len(f) != 8 {
+		if len(f) != 8 && len(f) != 9 {
 			continue
 		}
-		n := func(i int) uint64 { v, _ := strconv.ParseUint(f[i], 10, 64); return v }
+		n := func(i int) uint64 {
+			if i >= len(f) {
+				return 0
+			}
+			v, _ := strconv.ParseUint(f[i], 10, 64)
+			return v
+		}
 		out = append(out, genOpts{Epoch: n(0), NBlocks: int(n(1)), MaxTx: int(n(2)), SkipPct: int(n(3)), FramePct: int(n(4)), BigPct: int(n(5)),
-			LoadedPct: int(n(6)), FirstSlotAt: n(7), KeySeedBase: byte(n(0) + 1), NKeys: 6, TxDataFrames: true})
+			LoadedPct: int(n(6)), FirstSlotAt: n(7), TimeBase: n(8), KeySeedBase: byte(n(0) + 1), NKeys: 6, TxDataFrames: true})
 	}
 	return out
 }
@@ -168,6 +174,13 @@ func c02Cases(rng *zz.RNG, thorough bool) []c02Case {
 	cs = append(cs, c02Case{name: "epoch0-skip1", seed: rng.U64(), skip1: true, specs: []genOpts{mk(0, 5, 2, 50, 30, 0, 0)}})
 	// directed: a signature of the earlier epoch that the later epoch's sig-to-cid index answers (cross-epoch hash collision)
 	cs = append(cs, c02Case{name: "sig-collision", seed: rng.U64(), collide: true, specs: []genOpts{mk(21, 30, 5, 30, 25, 0, 0), mk(19, 8, 3, 30, 25, 0, 0)}})
+	// directed: block times on both sides of 2^31 and up to 2^32-1 (the slot-to-blocktime index stores a uint32 per slot)
+	{
+		a, b := mk(30, 8, 3, 30, 25, 0, 0), mk(31, 6, 3, 30, 25, 0, 0)
+		a.TimeBase = 1<<31 - 30*432000 - 3
+		b.TimeBase = 1<<32 - 1 - 32*432000
+		cs = append(cs, c02Case{name: "late-block-times", seed: rng.U64(), specs: []genOpts{a, b}})
+	}
 	// model validation only: an epoch that starts mid-epoch (the parent of its first block is in the same epoch but not archived)
 	po := mk(123, 6, 3, 30, 30, 0, 0)
 	po.FirstSlotAt = 100000
@@ -839,6 +852,9 @@ func TestVerifC02(t *testing.T) {
 					order := "asc"
 					if k%2 == 1 {
 						order = "desc"
+						if len(sub) > 1 {
+							order = "desc+live"
+						}
 					}
 					var nums []string
 					for _, i := range sub {
@@ -846,7 +862,7 @@ func TestVerifC02(t *testing.T) {
 					}
 					lines := []string{fmt.Sprintf("load %s conc=%d order=%s", strings.Join(nums, ","), conc, order)}
 					idxs := append([]int(nil), sub...)
-					if order == "desc" {
+					if strings.HasPrefix(order, "desc") {
 						sort.Sort(sort.Reverse(sort.IntSlice(idxs)))
 					}
 					for _, i := range idxs {
@@ -950,7 +966,12 @@ func c02Replay(run *c02Run, tr *c02Truth, les []*loadedEpoch, cdir, genesis stri
 			multi := NewMultiEpoch(&Options{EpochSearchConcurrency: conc})
 			loaded = map[uint64]*loadedEpoch{}
 			okAll := true
-			for _, ns := range strings.Split(f[1], ",") {
+			// order=…+live: the server is already answering when the last epoch arrives (cmd-rpc.go --watch: the
+			// epochs found at start-up come through AddEpoch, a config file written later through ReplaceOrAddEpoch)
+			live := strings.HasSuffix(f[3], "+live")
+			srv = &c02Srv{multi: multi, handler: newMultiEpochHandler(multi, nil)}
+			names := strings.Split(f[1], ",")
+			for ni, ns := range names {
 				n, _ := strconv.ParseUint(ns, 10, 64)
 				for _, le := range les {
 					if le.G.Epoch != n {
@@ -963,11 +984,26 @@ func c02Replay(run *c02Run, tr *c02Truth, les []*loadedEpoch, cdir, genesis stri
 						continue
 					}
 					eps = append(eps, ep)
-					multi.AddEpoch(n, ep)
+					if live && ni > 0 && ni == len(names)-1 {
+						// requests served before the epoch is there
+						for _, l0 := range loaded {
+							for _, b := range l0.G.Blocks {
+								if len(b.Txs) > 0 {
+									zz.Guard(func() string { return srv.getTx("grpc", b.Txs[0].Sig) })
+									zz.Guard(func() string { return srv.getTx("json-base64", b.Txs[0].Sig) })
+									zz.Guard(func() string { return srv.getBlockTime("grpc", b.Slot) })
+									break
+								}
+							}
+						}
+						multi.ReplaceOrAddEpoch(n, ep)
+						s.Count("loads-live-last-epoch")
+					} else {
+						multi.AddEpoch(n, ep)
+					}
 					loaded[n] = le
 				}
 			}
-			srv = &c02Srv{multi: multi, handler: newMultiEpochHandler(multi, nil)}
 			out := fmt.Sprintf("ok %d", len(loaded))
 			if !okAll {
 				out = "err:load"
